@@ -2,7 +2,8 @@
 # Re-run, for every seeded change, the check of the property it breaks (3 scratch worktrees in parallel).
 # usage: tools/regress_seeded.sh   (worktrees /tmp/mywt /tmp/mywt2 /tmp/mywt3 of /repo must exist)
 cd "$(dirname "$0")/.."
-ls seeded > /tmp/regress_all.txt
+# (changes neutralised by a later repair are skipped)
+for d in seeded/*/; do grep -q neutralised_by $d/meta.json || basename $d; done > /tmp/regress_all.txt
 split -n l/3 /tmp/regress_all.txt /tmp/regress_part_
 i=0
 for part in /tmp/regress_part_a?; do
